@@ -494,6 +494,8 @@ pub enum Cl {
     With(Vec<u32>, Vec<(u32, Ex)>),
     Create(Vec<CPath>),
     Merge(NPat, Vec<SetItem>, Vec<SetItem>),
+    /// MERGE (a)-[:T]->(b) with both ends unbound pattern nodes
+    MergeRel(NPat, u32, NPat),
     Set(Vec<SetItem>),
     Remove(Vec<RemItem>),
     Delete(bool, Vec<u32>),
@@ -552,7 +554,7 @@ impl SetItem {
 
 impl Cl {
     pub fn is_write(&self) -> bool {
-        matches!(self, Cl::Create(_) | Cl::Merge(..) | Cl::Set(_) | Cl::Remove(_) | Cl::Delete(..))
+        matches!(self, Cl::Create(_) | Cl::Merge(..) | Cl::MergeRel(..) | Cl::Set(_) | Cl::Remove(_) | Cl::Delete(..))
     }
     pub fn kind(&self) -> &'static str {
         match self {
@@ -563,6 +565,7 @@ impl Cl {
             Cl::With(..) => "with",
             Cl::Create(_) => "create",
             Cl::Merge(..) => "merge",
+            Cl::MergeRel(..) => "mergerel",
             Cl::Set(_) => "set",
             Cl::Remove(_) => "remove",
             Cl::Delete(false, _) => "delete",
@@ -602,6 +605,7 @@ impl Cl {
                 }
                 s
             }
+            Cl::MergeRel(a, ty, b) => format!("MERGE {}-[:T{}]->{}", a.cypher(), ty, b.cypher()),
             Cl::Set(items) => format!("SET {}", items.iter().map(|i| i.cypher()).collect::<Vec<_>>().join(", ")),
             Cl::Remove(items) => format!(
                 "REMOVE {}",
@@ -646,6 +650,7 @@ impl Cl {
                 oc.iter().map(|i| i.model()).collect::<Vec<_>>().join(","),
                 om.iter().map(|i| i.model()).collect::<Vec<_>>().join(",")
             ),
+            Cl::MergeRel(a, ty, b) => format!("MP({},{},{})", a.model(), ty, b.model()),
             Cl::Set(items) => format!("S({})", items.iter().map(|i| i.model()).collect::<Vec<_>>().join(",")),
             Cl::Remove(items) => format!(
                 "RM({})",
@@ -682,6 +687,7 @@ impl Cl {
                     .collect(),
             ),
             Cl::Merge(p, oc, om) => Cl::Merge(mn(p), oc.iter().map(ms).collect(), om.iter().map(ms).collect()),
+            Cl::MergeRel(a, ty, b) => Cl::MergeRel(mn(a), *ty, mn(b)),
             Cl::Set(items) => Cl::Set(items.iter().map(ms).collect()),
             other => other.clone(),
         }
